@@ -1344,6 +1344,38 @@ impl Machine {
         }
     }
 
+    /// asserta/1 inserts at the front of a dynamic indexed-choice line, shifting
+    /// the position of every entry behind it. A choice point of such a line
+    /// therefore remembers the entry it selected last (by its clause offset)
+    /// and resumes behind that entry, wherever it is now.
+    #[inline(always)]
+    fn relocate_dynamic_indexed_choice(&mut self) {
+        if let FirstOrNext::Next = self.machine_st.dynamic_mode {
+            let b = self.machine_st.b;
+            let n = self.machine_st.stack.index_or_frame(b).prelude.num_cells;
+
+            if n < 2 {
+                return;
+            }
+
+            let selected = unsafe {
+                self.machine_st.stack[stack_loc!(OrFrame, b, n - 2)]
+                    .to_fixnum_or_cut_point_unchecked()
+            }
+            .get_num() as usize;
+
+            let oip = self.machine_st.oip as usize;
+
+            if let Instruction::IndexingCode(indexing_code) = &self.code[self.machine_st.p] {
+                if let IndexingLine::DynamicIndexedChoice(entries) = &indexing_code[oip] {
+                    if let Some(pos) = entries.iter().position(|&offset| offset == selected) {
+                        self.machine_st.iip = pos as u32 + 1;
+                    }
+                }
+            }
+        }
+    }
+
     pub(super) fn find_living_dynamic_else(&self, mut p: usize) -> Option<(usize, usize)> {
         loop {
             match self.code[p] {
@@ -3726,6 +3758,7 @@ impl Machine {
                             }
                             IndexingLine::DynamicIndexedChoice(_) => {
                                 self.restore_dynamic_cc();
+                                self.relocate_dynamic_indexed_choice();
 
                                 let p = self.machine_st.p;
 
@@ -3750,8 +3783,17 @@ impl Machine {
                                                 // point in case there isn't.
                                                 match self.find_living_dynamic(oi, ii + 1) {
                                                     Some(_) => {
+                                                        // the entry selected (identified by its clause
+                                                        // offset, which asserta/1 cannot shift) and the
+                                                        // call's clock reading travel in the choice point.
                                                         self.machine_st.registers
                                                             [self.machine_st.num_of_args + 1] = fixnum_as_cell!(
+                                                            unsafe {
+                                                                Fixnum::build_with_unchecked(offset as i64)
+                                                            }
+                                                        );
+                                                        self.machine_st.registers
+                                                            [self.machine_st.num_of_args + 2] = fixnum_as_cell!(
                                                             /* FIXME this is not safe */
                                                             unsafe {
                                                                 Fixnum::build_with_unchecked(
@@ -3760,13 +3802,13 @@ impl Machine {
                                                             }
                                                         );
 
-                                                        self.machine_st.num_of_args += 1;
+                                                        self.machine_st.num_of_args += 2;
                                                         backtrack_on_resource_error!(
                                                             self.machine_st,
                                                             self.indexed_try(offset),
                                                             continue
                                                         );
-                                                        self.machine_st.num_of_args -= 1;
+                                                        self.machine_st.num_of_args -= 2;
                                                     }
                                                     None => {
                                                         self.machine_st.p = p + offset;
@@ -3811,6 +3853,13 @@ impl Machine {
                                                                 .index_or_frame_mut(b)
                                                                 .prelude
                                                                 .biip = ii;
+
+                                                            self.machine_st.stack
+                                                                [stack_loc!(OrFrame, b, n - 2)] = fixnum_as_cell!(
+                                                                unsafe {
+                                                                    Fixnum::build_with_unchecked(offset as i64)
+                                                                }
+                                                            );
 
                                                             self.retry(offset);
                                                             increment_call_count!(self.machine_st);
